@@ -77,3 +77,94 @@ Proof. intros ck. rewrite nat_status_of_spec. unfold nat_reference. rewrite Z.eq
 
 Example c19_example : nat_fold None [(7, 7); (7, 7); (7, 9); (7, 9)] = [NatNotDetected; NatNotDetected; NatDetected; NatNotDetected].
 Proof. reflexivity. Qed.
+
+(* ======================================================================================================================
+   The link from c19_round to the real loop over a published round (Proofs/RoundFold.v, Proofs/RoundNat.v).
+   Vocabulary, read off the round alone:
+     responders ps   the (expected, actual) pairs of the probes that carry both checksums, in round order;
+     resp_ttls ps    their distances;           round_nat ps = combine (resp_ttls ps) (nat_spec None (responders ps));
+     nat_at l t old  the status hop t shows after the pairs of l were written in order (a hop that is not in l keeps old);
+     reference_of l j e = e for j = 0, the checksum quoted by responder j-1 otherwise. *)
+From TV Require Import Proofs.FlowsProofs Proofs.FlowAttr Proofs.RoundFold Proofs.RoundNat.
+
+(* StateUpdater::apply on one round: the status of every hop afterwards is what nat_spec, started from None, assigns to
+   the round's responding probes - the carried checksum is reset at the start of every round *)
+Theorem c19_round_fold : forall f r f', fs_apply f r = Ok f' ->
+  forall i, option_map h_last_nat (nth_error (fs_hops f') i) =
+            option_map (fun h => nat_at (round_nat (rr_probes r)) (Z.of_nat i + 1) (h_last_nat h)) (nth_error (fs_hops f) i).
+Proof. exact fs_apply_nat. Qed.
+
+(* any number of rounds: each one is evaluated on its own *)
+Theorem c19_rounds_fold : forall rs f f', fs_run f rs = Ok f' ->
+  forall i, option_map h_last_nat (nth_error (fs_hops f') i) =
+            option_map (fun h => fold_left (fun acc r => nat_at (round_nat (rr_probes r)) (Z.of_nat i + 1) acc) rs (h_last_nat h))
+                       (nth_error (fs_hops f) i).
+Proof. exact fs_run_nat. Qed.
+
+(* ... and per flow: State::update_from_round evaluates the round from None in the default flow and in the flow it is
+   attributed to, and leaves every other flow alone *)
+Theorem c19_per_flow : forall s r s' id, dense (st_registry s) -> update_from_round s r = Ok s' ->
+  if selects id s r
+  then forall i, option_map h_last_nat (nth_error (fs_hops (flow_or_new s' id)) i) =
+                 option_map (fun h => nat_at (round_nat (rr_probes r)) (Z.of_nat i + 1) (h_last_nat h))
+                            (nth_error (fs_hops (flow_or_new s id)) i)
+  else flow_or_new s' id = flow_or_new s id.
+Proof. exact update_from_round_nat. Qed.
+
+(* the property's wording for nat_spec: the j-th responding probe is NAT-detected exactly when the checksum it quotes
+   differs from the one quoted by the previous responding probe (the first: from the checksum of the probe as sent) *)
+Theorem c19_responder_status : forall l j e a, nth_error l j = Some (e, a) ->
+  nth_error (nat_spec None l) j = Some (if a =? reference_of l j e then NatNotDetected else NatDetected).
+Proof. exact nat_spec_nth. Qed.
+
+(* with one probe per distance, the hop of the j-th responding probe shows exactly that after the round; a hop that did
+   not respond keeps its status *)
+Theorem c19_round_hop_status : forall ps j t e a old, NoDup (resp_ttls ps) ->
+  nth_error (resp_ttls ps) j = Some t -> nth_error (responders ps) j = Some (e, a) ->
+  nat_at (round_nat ps) t old = if a =? reference_of (responders ps) j e then NatNotDetected else NatDetected.
+Proof. exact round_nat_responder. Qed.
+
+Theorem c19_round_silent_hop : forall ps t old, ~ In t (resp_ttls ps) -> nat_at (round_nat ps) t old = old.
+Proof. exact round_nat_silent. Qed.
+
+(* no rewriting: every hop that responds in the round shows NotDetected (any round shape) *)
+Theorem c19_round_no_nat : forall ps e0 t old, Forall (fun ea => fst ea = e0 /\ snd ea = e0) (responders ps) ->
+  In t (resp_ttls ps) -> nat_at (round_nat ps) t old = NatNotDetected.
+Proof. exact round_nat_no_rewrite. Qed.
+
+(* a single rewriting device: Detected at the hop of the first responding probe at or beyond it, NotDetected at every
+   other responding hop of the round *)
+Theorem c19_round_single_nat : forall ps before after e0 a1 j t old, a1 <> e0 ->
+  NoDup (resp_ttls ps) -> responders ps = before ++ after ->
+  Forall (fun ea => fst ea = e0 /\ snd ea = e0) before ->
+  Forall (fun ea => fst ea = e0 /\ snd ea = a1) after ->
+  nth_error (resp_ttls ps) j = Some t ->
+  nat_at (round_nat ps) t old = if (j =? length before)%nat then NatDetected else NatNotDetected.
+Proof. exact round_nat_single_rewrite. Qed.
+
+(* every other configuration (no response carries a checksum pair): NotApplicable on every hop, whatever the history *)
+Theorem c19_rounds_not_applicable : forall ms rs f', Forall (fun r => responders (rr_probes r) = []) rs ->
+  fs_run (flow_state_new ms) rs = Ok f' ->
+  forall i h, nth_error (fs_hops f') i = Some h -> h_last_nat h = NatNotApplicable.
+Proof. exact fs_run_not_applicable. Qed.
+
+(* non-vacuity: a device at distance 3 (hop 2 silent, hop 5 without checksums); the second round starts from None again *)
+Example c19_round_example :
+  let pr t := {| p_sequence := 33000 + t; p_identifier := 0; p_src_port := 0; p_dest_port := 0; p_ttl := t; p_round := 0; p_sent := 0; p_flags := 0 |} in
+  let c t e a := Complete {| c_probe := pr t; c_host := [10;0;0;t]; c_received := 1000; c_icmp := ITimeExceeded 0; c_tos := None; c_expected := e; c_actual := a; c_exts := None |} in
+  let ps := [c 1 (Some 7) (Some 7); Awaited (pr 2); c 3 (Some 7) (Some 9); c 4 (Some 7) (Some 9); c 5 None None; c 6 (Some 7) (Some 9)] in
+  let rd := {| rr_probes := ps; rr_largest_ttl := 6; rr_reason := TargetFound |} in
+  let nat f := match f with Ok f => map h_last_nat (firstn 6 (fs_hops f)) | _ => [] end in
+  let expected := [NatNotDetected; NatNotApplicable; NatDetected; NatNotDetected; NatNotApplicable; NatNotDetected] in
+  round_nat ps = [(1, NatNotDetected); (3, NatDetected); (4, NatNotDetected); (6, NatNotDetected)] /\
+  nat (fs_apply (flow_state_new 10) rd) = expected /\ nat (fs_run (flow_state_new 10) [rd; rd]) = expected /\
+  NoDup (resp_ttls ps).
+Proof.
+  cbv zeta. split; [vm_compute; reflexivity|]. split; [vm_compute; reflexivity|]. split; [vm_compute; reflexivity|].
+  cbn. repeat (constructor; [cbn; lia|]). constructor.
+Qed.
+
+(* the side condition of c19_round_hop_status / c19_round_single_nat holds for every round in ascending distance order,
+   which is every round the strategy publishes (Props/C05.v, c05_strategy_rounds_ascending) *)
+Theorem c19_ascending_round_distinct : forall ps, ascending ps -> NoDup (resp_ttls ps).
+Proof. exact ascending_resp_nodup. Qed.
